@@ -42,7 +42,7 @@ R_SCOPES = {
             (AX, AP, L("y", None, D1)),
             (B("b"), AP, L("x", None, D3)),
             (AX, AP, L("x", None, XSD_STRING)),
-            (AX, AP, L("é", "fr")),
+            (AX, AP, L("x")),  # (the same text plain: another term than the one typed xsd:string)
         ],
         "presets": [(8, 0, 1), (8, 1, 2), (8, 2, 3), (4000, 150, 32)],
     },
@@ -239,7 +239,7 @@ def run_scale(job, judge) -> dict:
     return acc.out()
 
 
-def run_job(job, judge) -> dict:
+def run_job(job, judge, include_out_of_domain: bool = False) -> dict:
     if job[1] == "S":
         return run_scale(job, judge)
     _, kind, scope, cls, pi, L, lo, hi = job
@@ -265,12 +265,16 @@ def run_job(job, judge) -> dict:
         for cpi, fs, lk, dl, writer in configs:
             preset = presets[cpi]
             acc.evals += 1
-            if not all(AL.fits(st, preset) for st in seq):
+            ood = not all(AL.fits(st, preset) for st in seq)
+            if ood:
                 acc.counters["out_of_domain"] += 1
-                continue
+                if not include_out_of_domain:
+                    continue
             case = {"api": "rdflib", "scope": scope, "cls": cls, "preset": list(preset),
                     "frame_size": fs, "logical": lk, "delimited": dl, "writer": writer,
                     "seq": list(sym)}
+            if ood:
+                case["out_of_domain"] = True
             if len(set(sym)) >= 2:
                 acc.nontrivial += 1
             try:
